@@ -161,6 +161,14 @@ class Interp:
         st.store[a] = value
         return a
 
+    def site_alloc(self, st, name, value, body, ln):
+        """allocation-site abstraction for cells a library model creates: one cell per call site, so that a loop
+        that executes the site again reaches a fixed point (the cell then holds the join of all values it stood for)"""
+        a = ("heap", name, ("site", body.path if body is not None else None, ln, self.cur, len(self.stack)))
+        old = st.store.get(a)
+        st.store[a] = value if old is None else join(old, value)
+        return a
+
     def read_path(self, v, path):
         for step in path:
             if v is TOP or v is BOT:
